@@ -176,8 +176,27 @@ def RotInv (w : World) : Prop := ∀ l ∈ w.lbs, ∀ tid ∈ l.healthy, tid ∈
 def Fresh (w : World) : Prop :=
   (∀ l ∈ w.lbs, l.id < w.next) ∧ (∀ t ∈ w.tgts, t.id < w.next) ∧ (∀ t ∈ w.tgts, getT w t.id = some t)
 
+/-- the routing table refers to existing service objects, and two installed services never share a host
+    (the concurrent form of C05: the availability check and the table update are one atomic step) -/
+def HostInv (w : World) : Prop :=
+  (∀ p ∈ w.table, (getO w p.2).isSome = true) ∧
+  (∀ p ∈ w.table, ∀ q ∈ w.table, ∀ op oq, getO w p.2 = some op → getO w q.2 = some oq → op.host = oq.host → op.name = oq.name)
+
+theorem HostInv.of_eq {w w' : World} (ho : w'.objs = w.objs) (htb : w'.table = w.table) (h : HostInv w) : HostInv w' := by
+  unfold HostInv getO at *
+  rw [ho, htb]; exact h
+
+/-- ghost link: the became-healthy signal (raised, or about to be raised by a parked probe loop) is backed by a
+    probe of that target that succeeded -/
+def TOK (t : Tgt) : Prop :=
+  (t.signaled = true → t.everOk = true) ∧ (∀ c, t.loop = .parked c true → t.everOk = true)
+
+def TokInv (w : World) : Prop := ∀ t ∈ w.tgts, TOK t
+
 structure J (w : World) : Prop where
   fresh : Fresh w
+  tok : TokInv w
+  host : HostInv w
   objs : ∀ o ∈ w.objs, PhiO w o
   cmds : ∀ c ∈ w.cmds, PhiC w c
   reqs : ∀ r ∈ w.reqs, PhiR w r
@@ -201,16 +220,18 @@ theorem PhiRp.mono {w w' : World} {p : RPhase} (h : PhiRp w p) (e : Ext w w') : 
 structure Pres (w w' : World) : Prop where
   ext : Ext w w'
   fresh : Fresh w → Fresh w'
+  tok : TokInv w → TokInv w'
+  host : HostInv w → HostInv w'
   objs : ∀ o ∈ w'.objs, o ∈ w.objs ∨ PhiO w' o
   cmds : ∀ c ∈ w'.cmds, (∃ c0 ∈ w.cmds, c0.phase = c.phase) ∨ PhiC w' c
   reqs : ∀ r ∈ w'.reqs, (∃ r0 ∈ w.reqs, r0.phase = r.phase) ∨ PhiR w' r
   rot : RotInv w → RotInv w'
 
 theorem Pres.refl (w : World) : Pres w w :=
-  ⟨Ext.refl w, id, fun _ h => Or.inl h, fun c h => Or.inl ⟨c, h, rfl⟩, fun r h => Or.inl ⟨r, h, rfl⟩, id⟩
+  ⟨Ext.refl w, id, id, id, fun _ h => Or.inl h, fun c h => Or.inl ⟨c, h, rfl⟩, fun r h => Or.inl ⟨r, h, rfl⟩, id⟩
 
 theorem Pres.trans {a b c : World} (h1 : Pres a b) (h2 : Pres b c) : Pres a c := by
-  refine ⟨h1.ext.trans h2.ext, fun h => h2.fresh (h1.fresh h), fun o ho => ?_, fun x hx => ?_, fun r hr => ?_, fun h => h2.rot (h1.rot h)⟩
+  refine ⟨h1.ext.trans h2.ext, fun h => h2.fresh (h1.fresh h), fun h => h2.tok (h1.tok h), fun h => h2.host (h1.host h), fun o ho => ?_, fun x hx => ?_, fun r hr => ?_, fun h => h2.rot (h1.rot h)⟩
   · rcases h2.objs o ho with h | h
     · rcases h1.objs o h with h' | h'
       · exact Or.inl h'
@@ -232,7 +253,7 @@ theorem Pres.trans {a b c : World} (h1 : Pres a b) (h2 : Pres b c) : Pres a c :=
     · exact Or.inr h
 
 theorem J.step {w w' : World} (j : J w) (p : Pres w w') : J w' := by
-  refine ⟨p.fresh j.fresh, fun o ho => ?_, fun c hc => ?_, fun r hr => ?_, p.rot j.rot⟩
+  refine ⟨p.fresh j.fresh, p.tok j.tok, p.host j.host, fun o ho => ?_, fun c hc => ?_, fun r hr => ?_, p.rot j.rot⟩
   · rcases p.objs o ho with h | h
     · exact (j.objs o h).mono p.ext
     · exact h
@@ -253,8 +274,9 @@ theorem Fresh.of_eq {w w' : World} (ht : w'.tgts = w.tgts) (hl : w'.lbs = w.lbs)
   exact ⟨fun l hm => Nat.lt_of_lt_of_le (h.1 l hm) hn, fun t hm => Nat.lt_of_lt_of_le (h.2.1 t hm) hn, h.2.2⟩
 
 theorem Pres.of_eq {w w' : World} (ht : w'.tgts = w.tgts) (hl : w'.lbs = w.lbs) (ho : w'.objs = w.objs)
-    (hc : w'.cmds = w.cmds) (hr : w'.reqs = w.reqs) (hn : w.next ≤ w'.next := by exact Nat.le_refl _) : Pres w w' := by
-  refine ⟨Ext.of_eq ht hl, Fresh.of_eq ht hl hn, fun o h => Or.inl (ho ▸ h), fun c h => Or.inl ⟨c, hc ▸ h, rfl⟩,
+    (hc : w'.cmds = w.cmds) (hr : w'.reqs = w.reqs) (hn : w.next ≤ w'.next := by exact Nat.le_refl _)
+    (htb : w'.table = w.table := by rfl) : Pres w w' := by
+  refine ⟨Ext.of_eq ht hl, Fresh.of_eq ht hl hn, (by unfold TokInv; rw [ht]; exact id), HostInv.of_eq ho htb, fun o h => Or.inl (ho ▸ h), fun c h => Or.inl ⟨c, hc ▸ h, rfl⟩,
     fun r h => Or.inl ⟨r, hr ▸ h, rfl⟩, fun h => ?_⟩
   unfold RotInv at *; rw [hl]; exact h
 
@@ -273,9 +295,10 @@ theorem Pres.lists {w w' : World} (ht : w'.tgts = w.tgts) (hl : w'.lbs = w.lbs)
     (ho : ∀ o ∈ w'.objs, o ∈ w.objs ∨ PhiO w o)
     (hc : ∀ c ∈ w'.cmds, (∃ c0 ∈ w.cmds, c0.phase = c.phase) ∨ PhiCp w c.phase)
     (hr : ∀ r ∈ w'.reqs, (∃ r0 ∈ w.reqs, r0.phase = r.phase) ∨ PhiRp w r.phase)
+    (hh : HostInv w → HostInv w')
     (hn : w.next ≤ w'.next := by exact Nat.le_refl _) : Pres w w' := by
   have e := Ext.of_eq ht hl
-  refine ⟨e, Fresh.of_eq ht hl hn, fun o h => ?_, fun c h => ?_, fun r h => ?_, fun h => ?_⟩
+  refine ⟨e, Fresh.of_eq ht hl hn, (by unfold TokInv; rw [ht]; exact id), hh, fun o h => ?_, fun c h => ?_, fun r h => ?_, fun h => ?_⟩
   · rcases ho o h with h' | h'
     · exact Or.inl h'
     · exact Or.inr (h'.mono e)
@@ -288,9 +311,18 @@ theorem Pres.lists {w w' : World} (ht : w'.tgts = w.tgts) (hl : w'.lbs = w.lbs)
   · unfold RotInv at *; rw [hl]; exact h
 
 theorem pres_setT {w : World} {t : Tgt}
-    (h : ∀ t0, getT w t.id = some t0 → t0.signaled = true → t.signaled = true) : Pres w (setT w t) := by
-  refine ⟨Ext.setT h, fun hf => ⟨hf.1, fun x hx => ?_, fun x hx => ?_⟩, fun _ h => Or.inl h, fun c h => Or.inl ⟨c, h, rfl⟩,
+    (h : ∀ t0, getT w t.id = some t0 → t0.signaled = true → t.signaled = true)
+    (htok : ∀ t0, getT w t.id = some t0 → TOK t0 → TOK t) : Pres w (setT w t) := by
+  refine ⟨Ext.setT h, fun hf => ⟨hf.1, fun x hx => ?_, fun x hx => ?_⟩, fun hk x hx => ?_, HostInv.of_eq rfl rfl, fun _ h => Or.inl h, fun c h => Or.inl ⟨c, h, rfl⟩,
     fun r h => Or.inl ⟨r, h, rfl⟩, id⟩
+  rotate_left 2
+  · rcases mem_map_upd Tgt.id hx with h' | ⟨rfl, y, hy, hk'⟩
+    · exact hk x h'
+    · have hs : (w.tgts.find? (fun z => z.id = x.id)).isSome = true := by
+        rw [List.find?_isSome]; exact ⟨y, hy, by simpa using hk'⟩
+      cases hg : getT w x.id with
+      | none => unfold getT at hg; rw [hg] at hs; cases hs
+      | some z => exact htok z hg (hk z (List.mem_of_find?_eq_some hg))
   · rcases mem_map_upd Tgt.id hx with h' | ⟨rfl, y, hy, hk⟩
     · exact hf.2.1 x h'
     · have := hf.2.1 y hy
@@ -307,10 +339,18 @@ theorem pres_setT {w : World} {t : Tgt}
     rw [getT_setT, hyid, hf.2.2 y hy]
     rfl
 
+/-- write back a changed copy of the target found under `i` -/
+theorem pres_setT_upd {w : World} {i : Nat} {t0 t : Tgt} (ht : getT w i = some t0) (hid : t.id = t0.id)
+    (hs : t0.signaled = true → t.signaled = true) (hk : TOK t0 → TOK t) : Pres w (setT w t) := by
+  have hi := getT_id ht
+  refine pres_setT (fun x hx h1 => ?_) (fun x hx h1 => ?_)
+  · rw [hid, hi, ht] at hx; cases hx; exact hs h1
+  · rw [hid, hi, ht] at hx; cases hx; exact hk h1
+
 theorem pres_setL {w : World} {l : Lb}
     (h : ∀ l0, getL w l.id = some l0 → l.targets = l0.targets) (hh : RotInv w → ∀ tid ∈ l.healthy, tid ∈ l.targets) :
     Pres w (setL w l) := by
-  refine ⟨Ext.setL h, fun hf => ⟨fun x hx => ?_, hf.2.1, hf.2.2⟩, fun _ h => Or.inl h, fun c h => Or.inl ⟨c, h, rfl⟩,
+  refine ⟨Ext.setL h, fun hf => ⟨fun x hx => ?_, hf.2.1, hf.2.2⟩, id, HostInv.of_eq rfl rfl, fun _ h => Or.inl h, fun c h => Or.inl ⟨c, h, rfl⟩,
     fun r h => Or.inl ⟨r, h, rfl⟩, fun hr => ?_⟩
   · rcases mem_map_upd Lb.id hx with h' | ⟨rfl, y, hy, hk⟩
     · exact hf.1 x h'
@@ -326,23 +366,124 @@ theorem pres_emit (w : World) (e : String) : Pres w (emit w e) := Pres.of_eq rfl
 
 theorem pres_setR {w : World} {r : Req}
     (h : (∃ r0 ∈ w.reqs, r0.phase = r.phase) ∨ PhiRp w r.phase) : Pres w (setR w r) := by
-  refine Pres.lists rfl rfl (fun _ h => Or.inl h) (fun c h => Or.inl ⟨c, h, rfl⟩) (fun x hx => ?_)
+  refine Pres.lists rfl rfl (fun _ h => Or.inl h) (fun c h => Or.inl ⟨c, h, rfl⟩) (fun x hx => ?_) (HostInv.of_eq rfl rfl)
   rcases mem_map_upd Req.id hx with h' | ⟨rfl, _⟩
   · exact Or.inl ⟨x, h', rfl⟩
   · exact h
 
 theorem pres_setC {w : World} {c : Cmd}
     (h : (∃ c0 ∈ w.cmds, c0.phase = c.phase) ∨ PhiCp w c.phase) : Pres w (setC w c) := by
-  refine Pres.lists rfl rfl (fun _ h => Or.inl h) (fun x hx => ?_) (fun r h => Or.inl ⟨r, h, rfl⟩)
+  refine Pres.lists rfl rfl (fun _ h => Or.inl h) (fun x hx => ?_) (fun r h => Or.inl ⟨r, h, rfl⟩) (HostInv.of_eq rfl rfl)
   rcases mem_map_upd Cmd.id hx with h' | ⟨rfl, _⟩
   · exact Or.inl ⟨x, h', rfl⟩
   · exact h
 
-theorem pres_setO {w : World} {o : Obj} (h : o ∈ w.objs ∨ PhiO w o) : Pres w (setO w o) := by
-  refine Pres.lists rfl rfl (fun x hx => ?_) (fun c h => Or.inl ⟨c, h, rfl⟩) (fun r h => Or.inl ⟨r, h, rfl⟩)
+theorem getO_setO (w : World) (o : Obj) (i : Nat) :
+    getO (setO w o) i = (getO w i).map (fun x => if x.id = o.id then o else x) := by
+  unfold getO setO
+  exact find_map_upd (·.id) w.objs o i
+
+theorem getO_id {w : World} {i : Nat} {o : Obj} (h : getO w i = some o) : o.id = i := by
+  have := List.find?_some (h : w.objs.find? (·.id = i) = some o)
+  simpa using this
+
+/-- rewriting an object without changing its host and name keeps the host invariant -/
+theorem HostInv.setO {w : World} {o : Obj} (hk : ∀ o0, getO w o.id = some o0 → o.host = o0.host ∧ o.name = o0.name)
+    (h : HostInv w) : HostInv (setO w o) := by
+  have key : ∀ i x, getO (KamalProxy.Proxy.setO w o) i = some x → ∃ x0, getO w i = some x0 ∧ x.host = x0.host ∧ x.name = x0.name := by
+    intro i x hx
+    rw [getO_setO] at hx
+    cases h0 : getO w i with
+    | none => rw [h0] at hx; cases hx
+    | some x0 =>
+      rw [h0] at hx
+      simp only [Option.map_some, Option.some.injEq] at hx
+      by_cases hid : x0.id = o.id
+      · rw [if_pos hid] at hx
+        have hi : i = o.id := by rw [← getO_id h0]; exact hid
+        rw [hi] at h0
+        have := hk x0 h0
+        exact ⟨x0, rfl, by rw [← hx]; exact this.1, by rw [← hx]; exact this.2⟩
+      · rw [if_neg hid] at hx
+        exact ⟨x0, rfl, by rw [← hx], by rw [← hx]⟩
+  refine ⟨fun p hp => ?_, fun p hp q hq op oq hop hoq hh => ?_⟩
+  · have := h.1 p hp
+    rw [getO_setO]
+    cases h0 : getO w p.2 with
+    | none => rw [h0] at this; cases this
+    | some x => rfl
+  · obtain ⟨p0, hp0, e1, e2⟩ := key _ _ hop
+    obtain ⟨q0, hq0, e3, e4⟩ := key _ _ hoq
+    rw [e2, e4]
+    exact h.2 p hp q hq p0 q0 hp0 hq0 (by rw [← e1, ← e3]; exact hh)
+
+theorem pres_setO {w : World} {o : Obj} (h : o ∈ w.objs ∨ PhiO w o)
+    (hk : ∀ o0, getO w o.id = some o0 → o.host = o0.host ∧ o.name = o0.name) : Pres w (setO w o) := by
+  refine Pres.lists rfl rfl (fun x hx => ?_) (fun c h => Or.inl ⟨c, h, rfl⟩) (fun r h => Or.inl ⟨r, h, rfl⟩) (HostInv.setO hk)
   rcases mem_map_upd Obj.id hx with h' | ⟨rfl, _⟩
   · exact Or.inl h'
   · exact h
+
+theorem pres_setO_upd {w : World} {i : Nat} {o0 o : Obj} (ho : getO w i = some o0) (hid : o.id = o0.id)
+    (hh : o.host = o0.host) (hn : o.name = o0.name) (hphi : PhiO w o) : Pres w (setO w o) := by
+  refine pres_setO (Or.inr hphi) (fun x hx => ?_)
+  rw [hid, getO_id ho, ho] at hx
+  cases hx
+  exact ⟨hh, hn⟩
+
+/-- `installService`: the availability check and the table update, as one step -/
+theorem HostInv.install {w : World} {oid : Nat} {o : Obj} (ho : getO w oid = some o)
+    (hfree : hostTaken w o.name o.host = false) (h : HostInv w) :
+    HostInv { w with table := installTable w.table o.name oid } := by
+  -- every entry of the new table is an old entry or the new one
+  have hmem : ∀ p ∈ installTable w.table o.name oid, p ∈ w.table ∨ p.2 = oid := by
+    intro p hp
+    unfold installTable at hp
+    split at hp
+    · simp only [List.mem_map] at hp
+      obtain ⟨q, hq, rfl⟩ := hp
+      by_cases hn : q.1 = o.name
+      · simp [hn]
+      · simp [hn, hq]
+    · simp only [List.mem_append, List.mem_singleton] at hp
+      rcases hp with hp | rfl
+      · exact Or.inl hp
+      · exact Or.inr rfl
+  -- an installed object on the same host has the same name
+  have hother : ∀ q ∈ w.table, ∀ oq, getO w q.2 = some oq → oq.host = o.host → oq.name = o.name := by
+    intro q hq oq hoq hh
+    unfold hostTaken at hfree
+    rw [List.any_eq_false] at hfree
+    have hm : oq ∈ w.table.filterMap fun p => getO w p.2 := by
+      simp only [List.mem_filterMap]; exact ⟨q, hq, hoq⟩
+    have := hfree oq hm
+    simp only [Bool.and_eq_true, decide_eq_true_eq, not_and, ne_eq, Decidable.not_not] at this
+    exact this hh
+  refine ⟨fun p hp => ?_, fun p hp q hq op oq hop hoq hh => ?_⟩
+  · show (getO w p.2).isSome = true
+    rcases hmem p hp with h' | h'
+    · exact h.1 p h'
+    · rw [h', ho]; rfl
+  · have hop' : getO w p.2 = some op := hop
+    have hoq' : getO w q.2 = some oq := hoq
+    rcases hmem p hp with hp' | hp' <;> rcases hmem q hq with hq' | hq'
+    · exact h.2 p hp' q hq' op oq hop' hoq' hh
+    · rw [hq', ho] at hoq'; cases hoq'
+      exact hother p hp' op hop' hh
+    · rw [hp', ho] at hop'; cases hop'
+      exact (hother q hq' oq hoq' hh.symm).symm
+    · rw [hp', ho] at hop'; rw [hq', ho] at hoq'
+      cases hop'; cases hoq'; rfl
+
+theorem pres_install {w : World} {oid : Nat} {o : Obj} (ho : getO w oid = some o)
+    (hfree : hostTaken w o.name o.host = false) : Pres w { w with table := installTable w.table o.name oid } :=
+  Pres.lists rfl rfl (fun _ h => Or.inl h) (fun c h => Or.inl ⟨c, h, rfl⟩) (fun r h => Or.inl ⟨r, h, rfl⟩)
+    (HostInv.install ho hfree)
+
+theorem pres_tableFilter (w : World) (f : Bytes × Nat → Bool) : Pres w { w with table := w.table.filter f } := by
+  refine Pres.lists rfl rfl (fun _ h => Or.inl h) (fun c h => Or.inl ⟨c, h, rfl⟩) (fun r h => Or.inl ⟨r, h, rfl⟩) (fun h => ?_)
+  refine ⟨fun p hp => h.1 p (List.mem_filter.mp hp).1, fun p hp q hq op oq hop hoq hh => ?_⟩
+  exact h.2 p (List.mem_filter.mp hp).1 q (List.mem_filter.mp hq).1 op oq hop hoq hh
 
 theorem pres_setG (w : World) (g : Gate) : Pres w (setG w g) := Pres.of_eq rfl rfl rfl rfl rfl
 
@@ -356,9 +497,14 @@ theorem getL_mem {w : World} {i : Nat} {l : Lb} (h : getL w i = some l) : l ∈ 
 /-! ### probes -/
 
 theorem probeUpdate_frame (t : Tgt) (s : Bool) :
-    (probeUpdate t s).1.id = t.id ∧ (probeUpdate t s).1.signaled = t.signaled := by
+    (probeUpdate t s).1.id = t.id ∧ (probeUpdate t s).1.signaled = t.signaled ∧
+    (probeUpdate t s).1.everOk = t.everOk ∧ (probeUpdate t s).1.loop = t.loop := by
   unfold probeUpdate
   cases s <;> cases t.st <;> simp
+
+theorem getT_refresh (w : World) (lb i : Nat) : getT (refresh w lb) i = getT w i := by
+  unfold refresh
+  cases getL w lb <;> rfl
 
 theorem pres_refresh (w : World) (lb : Nat) : Pres w (refresh w lb) := by
   unfold refresh
@@ -372,7 +518,8 @@ theorem pres_refresh (w : World) (lb : Nat) : Pres w (refresh w lb) := by
     rw [hid, hl] at h0
     cases h0; rfl
 
-theorem pres_probeNotify (w : World) (tid : Nat) (became : Bool) : Pres w (probeNotify w tid became) := by
+theorem pres_probeNotify (w : World) (tid : Nat) (became : Bool)
+    (hb : became = true → ∀ t, getT w tid = some t → t.everOk = true) : Pres w (probeNotify w tid became) := by
   unfold probeNotify
   cases ht : getT w tid with
   | none => exact Pres.refl w
@@ -383,12 +530,14 @@ theorem pres_probeNotify (w : World) (tid : Nat) (became : Bool) : Pres w (probe
     | none => exact p1
     | some t1 =>
       simp only
-      refine p1.trans (pres_setT (fun t0 h0 hs => ?_))
-      have hid := getT_id ht1
-      simp only at h0
-      rw [hid, ht1] at h0
-      cases h0
-      simp [hs]
+      have e1 : t1 = t := by rw [getT_refresh, ht] at ht1; cases ht1; rfl
+      refine p1.trans (pres_setT_upd ht1 rfl (fun hs => by simp [hs]) (fun hk => ⟨fun _ => ?_, fun c hc => by cases hc⟩))
+      cases hbe : became with
+      | true => rw [e1]; exact hb hbe t ht
+      | false =>
+        rename_i hsig
+        simp only [hbe, Bool.or_false] at hsig
+        exact hk.1 hsig
 
 theorem pres_probeComplete (w : World) (tid : Nat) (success : Bool) : Pres w (probeComplete w tid success) := by
   unfold probeComplete
@@ -398,17 +547,28 @@ theorem pres_probeComplete (w : World) (tid : Nat) (success : Bool) : Pres w (pr
     simp only
     have hf := probeUpdate_frame t success
     have hid := getT_id ht
-    have hset : ∀ lp, Pres w (setT w { (probeUpdate t success).1 with loop := lp }) := by
-      intro lp
-      refine pres_setT (fun t0 h0 hs => ?_)
-      simp only [hf.1, hid, ht] at h0
-      cases h0
-      simp only [hf.2]; exact hs
+    have hbec : (probeUpdate t success).2.2 = true → success = true := fun h => (probeUpdate_became t success h).1
+    have hset : ∀ lp, (∀ c, lp = Loop.parked c true → success = true) →
+        Pres w (setT w { (probeUpdate t success).1 with everOk := (probeUpdate t success).1.everOk || success, loop := lp }) := by
+      intro lp hlp
+      refine pres_setT_upd ht hf.1 (fun hs => by simp only [hf.2.1]; exact hs) (fun hk => ⟨fun hs => ?_, fun c hc => ?_⟩)
+      · simp only [hf.2.1] at hs
+        simp only [hf.2.2.1, hk.1 hs, Bool.true_or]
+      · simp only at hc
+        simp only [hlp c hc, Bool.or_true]
     split
-    · exact hset _
+    · exact hset _ (fun c hc => by injection hc with _ h2; exact hbec h2)
     · split
-      · exact (hset _).trans (pres_probeNotify _ _ _)
-      · exact hset _
+      · refine (hset _ (fun c hc => by cases hc)).trans (pres_probeNotify _ _ _ (fun hb t1 ht1 => ?_))
+        have hsucc := hbec hb
+        have hfound : getT (setT w { (probeUpdate t success).1 with everOk := (probeUpdate t success).1.everOk || success, loop := Loop.idle }) tid
+            = some { (probeUpdate t success).1 with everOk := (probeUpdate t success).1.everOk || success, loop := Loop.idle } := by
+          rw [getT_setT, ht]
+          simp only [Option.map_some, hf.1, if_true]
+        rw [hfound] at ht1
+        cases ht1
+        simp only [hsucc, Bool.or_true]
+      · exact hset _ (fun c hc => by cases hc)
 
 theorem pres_probeFire (w : World) (tid : Nat) : Pres w (probeFire w tid) := by
   unfold probeFire
@@ -421,21 +581,14 @@ theorem pres_probeFire (w : World) (tid : Nat) : Pres w (probeFire w tid) := by
     · exact pe.trans (pres_probeComplete _ _ _)
     · exact pe.trans (pres_probeComplete _ _ _)
     · exact pe.trans (pres_probeComplete _ _ _)
-    · refine pe.trans (pres_setT (fun t0 h0 hs => ?_))
-      have hid := getT_id ht
-      have : getT (emit w s!"probe {showB t.name}") t.id = some t := by rw [hid]; exact ht
-      simp only at h0
-      rw [this] at h0; cases h0; exact hs
+    · have ht' : getT (emit w s!"probe {showB t.name}") tid = some t := ht
+      exact pe.trans (pres_setT_upd ht' rfl id (fun hk => ⟨hk.1, fun c hc => by cases hc⟩))
 
 theorem pres_stopChecks (w : World) (tid : Nat) : Pres w (stopChecks w tid) := by
   unfold stopChecks
   cases ht : getT w tid with
   | none => exact Pres.refl w
-  | some t =>
-    refine pres_setT (fun t0 h0 hs => ?_)
-    have hid := getT_id ht
-    simp only at h0
-    rw [hid, ht] at h0; cases h0; exact hs
+  | some t => exact pres_setT_upd ht rfl id id
 
 theorem pres_foldl {α : Type} (f : World → α → World) (hf : ∀ w a, Pres w (f w a)) (l : List α) (w : World) :
     Pres w (l.foldl f w) := by
@@ -465,11 +618,7 @@ theorem pres_reqAt {w : World} {r : Req} {ph : RPhase} (label : String)
 
 /-- a target whose `inflight` list alone changes -/
 theorem pres_setT_inflight {w : World} {t : Tgt} {i : Nat} (ht : getT w i = some t) (fl : List Nat) :
-    Pres w (setT w { t with inflight := fl }) := by
-  refine pres_setT (fun t0 h0 hs => ?_)
-  have hid := getT_id ht
-  simp only at h0
-  rw [hid, ht] at h0; cases h0; exact hs
+    Pres w (setT w { t with inflight := fl }) := pres_setT_upd ht rfl id id
 
 theorem pres_claim (w : World) (lb rid : Nat) : Pres w (claim w lb rid).1 := by
   unfold claim
@@ -614,11 +763,7 @@ theorem pres_cancelByDrain (w : World) (rid : Nat) : Pres w (cancelByDrain w rid
 /-! ### drains -/
 
 theorem pres_setT_st {w : World} {t : Tgt} {i : Nat} (ht : getT w i = some t) (st : TState) :
-    Pres w (setT w { t with st := st }) := by
-  refine pres_setT (fun t0 h0 hs => ?_)
-  have hid := getT_id ht
-  simp only at h0
-  rw [hid, ht] at h0; cases h0; exact hs
+    Pres w (setT w { t with st := st }) := pres_setT_upd ht rfl id id
 
 theorem pres_drainStart (w : World) (tid timeout : Nat) : Pres w (drainStart w tid timeout).1 := by
   unfold drainStart
@@ -734,7 +879,8 @@ theorem pres_cmdStep {w w' : World} {c : Cmd} (j : J w) (hc : c ∈ w.cmds) (h :
             rcases hx with hx | hx
             · cases hx; exact hphi
             · exact hO x (by unfold refs; simp only [List.mem_append, Option.mem_toList]; exact Or.inr hx)
-        have p1 := pres_setO (w := w) (Or.inr hO')
+        have p1 : Pres w (setO w (if slot = true then { o with rollout := some lb } else { o with active := some lb })) :=
+          pres_setO_upd ho (by cases slot <;> rfl) (by cases slot <;> rfl) (by cases slot <;> rfl) hO'
         exact p1.trans (pres_park _ (Or.inr (lbOK.mono hphi p1.ext)))
       · cases h
     · -- lbset
@@ -744,8 +890,9 @@ theorem pres_cmdStep {w w' : World} {c : Cmd} (j : J w) (hc : c ∈ w.cmds) (h :
       · split at h
         · cases h; exact (pres_disposeLb _ _).trans (pres_finishCmd _ _ _)
         · cases h
-          rename_i o _ _
-          have p1 : Pres w { w with table := installTable w.table o.name oid } := Pres.of_eq rfl rfl rfl rfl rfl
+          rename_i o ho hfree
+          have p1 : Pres w { w with table := installTable w.table o.name oid } :=
+            pres_install ho (by simpa using hfree)
           exact p1.trans (pres_park (ph := .installed _) _ (Or.inr trivial))
     · -- installed
       split at h
@@ -784,15 +931,13 @@ theorem pres_cmdStep {w w' : World} {c : Cmd} (j : J w) (hc : c ∈ w.cmds) (h :
 
 /-- a target of the list written back with other fields changed -/
 theorem pres_setT_of_mem {w : World} {t t' : Tgt} (j : J w) (hm : t ∈ w.tgts) (hid : t'.id = t.id)
-    (hs : t.signaled = true → t'.signaled = true) : Pres w (setT w t') := by
-  refine pres_setT (fun t0 h0 h1 => ?_)
-  rw [hid, j.fresh.2.2 t hm] at h0
-  cases h0; exact hs h1
+    (hs : t.signaled = true → t'.signaled = true) (hk : TOK t → TOK t') : Pres w (setT w t') :=
+  pres_setT_upd (j.fresh.2.2 t hm) hid hs hk
 
 theorem pres_tickStep {w w' : World} {t : Tgt} (j : J w) (hm : t ∈ w.tgts) (h : tickStep w t = some w') : Pres w w' := by
   unfold tickStep at h
   split at h
-  · cases h; exact pres_setT_of_mem j hm rfl id
+  · cases h; exact pres_setT_of_mem j hm rfl id id
   · cases h
 
 theorem pres_tgtStep {w w' : World} {t : Tgt} (j : J w) (hm : t ∈ w.tgts) (h : tgtStep w t = some w') : Pres w w' := by
@@ -800,10 +945,10 @@ theorem pres_tgtStep {w w' : World} {t : Tgt} (j : J w) (hm : t ∈ w.tgts) (h :
   split at h
   · split at h
     · cases h
-      exact (pres_setT_of_mem (t' := { t with tickBuf := false }) j hm rfl id).trans (pres_probeFire _ _)
+      exact (pres_setT_of_mem (t' := { t with tickBuf := false }) j hm rfl id id).trans (pres_probeFire _ _)
     · cases h
   · split at h
-    · cases h; exact pres_setT_of_mem j hm rfl id
+    · cases h; exact pres_setT_of_mem j hm rfl id (fun hk => ⟨hk.1, fun c hc => by cases hc⟩)
     · split at h
       · cases h; exact pres_probeComplete _ _ _
       · cases h
@@ -879,9 +1024,14 @@ theorem find_none_of_lt {α : Type} (k : α → Nat) (l : List α) (n : Nat) (h 
   simp only [decide_eq_true_eq]
   omega
 
-theorem pres_appendT (w : World) (t : Tgt) (hid : t.id = w.next) :
+theorem pres_appendT (w : World) (t : Tgt) (hid : t.id = w.next) (htok : TOK t) :
     Pres w { w with tgts := w.tgts ++ [t], next := w.next + 1 } := by
-  refine ⟨(Ext.appendT w [t]).trans (Ext.of_eq rfl rfl), fun hf => ⟨?_, ?_, ?_⟩, fun _ h => Or.inl h,
+  refine ⟨(Ext.appendT w [t]).trans (Ext.of_eq rfl rfl), fun hf => ⟨?_, ?_, ?_⟩,
+    (fun hk x hx => by
+      simp only [List.mem_append, List.mem_singleton] at hx
+      rcases hx with hx | rfl
+      · exact hk x hx
+      · exact htok), HostInv.of_eq rfl rfl, fun _ h => Or.inl h,
     fun c h => Or.inl ⟨c, h, rfl⟩, fun r h => Or.inl ⟨r, h, rfl⟩, id⟩
   · intro l hl; exact Nat.lt_succ_of_lt (hf.1 l hl)
   · intro x hx
@@ -901,7 +1051,7 @@ theorem pres_appendT (w : World) (t : Tgt) (hid : t.id = w.next) :
 
 theorem pres_appendL (w : World) (nl : Lb) (hid : nl.id < w.next) (hh : nl.healthy = []) :
     Pres w { w with lbs := w.lbs ++ [nl] } := by
-  refine ⟨Ext.appendL w [nl], fun hf => ⟨?_, hf.2.1, hf.2.2⟩, fun _ h => Or.inl h,
+  refine ⟨Ext.appendL w [nl], fun hf => ⟨?_, hf.2.1, hf.2.2⟩, id, HostInv.of_eq rfl rfl, fun _ h => Or.inl h,
     fun c h => Or.inl ⟨c, h, rfl⟩, fun r h => Or.inl ⟨r, h, rfl⟩, fun hr => ?_⟩
   · intro l hl
     simp only [List.mem_append, List.mem_singleton] at hl
@@ -915,14 +1065,14 @@ theorem pres_appendL (w : World) (nl : Lb) (hid : nl.id < w.next) (hh : nl.healt
     · intro tid hm; rw [hh] at hm; cases hm
 
 theorem pres_appendC (w : World) (c : Cmd) (h : PhiCp w c.phase) : Pres w { w with cmds := w.cmds ++ [c] } := by
-  refine Pres.lists rfl rfl (fun _ h => Or.inl h) (fun x hx => ?_) (fun r h => Or.inl ⟨r, h, rfl⟩)
+  refine Pres.lists rfl rfl (fun _ h => Or.inl h) (fun x hx => ?_) (fun r h => Or.inl ⟨r, h, rfl⟩) (HostInv.of_eq rfl rfl)
   simp only [List.mem_append, List.mem_singleton] at hx
   rcases hx with hx | rfl
   · exact Or.inl ⟨x, hx, rfl⟩
   · exact Or.inr h
 
 theorem pres_appendR (w : World) (r : Req) (h : PhiRp w r.phase) : Pres w { w with reqs := w.reqs ++ [r] } := by
-  refine Pres.lists rfl rfl (fun _ h => Or.inl h) (fun c h => Or.inl ⟨c, h, rfl⟩) (fun x hx => ?_)
+  refine Pres.lists rfl rfl (fun _ h => Or.inl h) (fun c h => Or.inl ⟨c, h, rfl⟩) (fun x hx => ?_) (HostInv.of_eq rfl rfl)
   simp only [List.mem_append, List.mem_singleton] at hx
   rcases hx with hx | rfl
   · exact Or.inl ⟨x, hx, rfl⟩
@@ -946,6 +1096,7 @@ theorem newTargets_aux (lbId : Nat) (interval hcTimeout : Nat) (names : List Byt
   | cons n ns ih =>
     simp only [List.foldl_cons]
     have p := pres_appendT acc.1 { id := acc.1.next, name := n, lb := lbId, nextTick := acc.1.now, tickBuf := true, interval := interval, hcTimeout := hcTimeout } rfl
+      ⟨fun h => (by cases h), fun c h => (by cases h)⟩
     have h2 : ∀ tid ∈ acc.2 ++ [acc.1.next], (getT { acc.1 with tgts := acc.1.tgts ++ [{ id := acc.1.next, name := n, lb := lbId, nextTick := acc.1.now, tickBuf := true, interval := interval, hcTimeout := hcTimeout }], next := acc.1.next + 1 } tid).isSome = true := by
       intro tid hm
       simp only [List.mem_append, List.mem_singleton] at hm
@@ -1018,9 +1169,22 @@ theorem pres_mkDeploy (cid : Nat) (svc : Bytes) (slot : Bool) (targets : List By
       simp
     exact p1.trans (q1.trans (p3.trans (pres_appendC _ _ hex)))
 
+theorem HostInv.appendO (w : World) (o : Obj) (k : Nat) (h : HostInv w) :
+    HostInv { w with objs := w.objs ++ [o], next := w.next + k } := by
+  have key : ∀ p ∈ w.table, getO { w with objs := w.objs ++ [o], next := w.next + k } p.2 = getO w p.2 := by
+    intro p hp
+    have := h.1 p hp
+    cases h0 : getO w p.2 with
+    | none => rw [h0] at this; cases this
+    | some x => unfold getO at *; exact find_append_some _ _ _ _ h0
+  refine ⟨fun p hp => ?_, fun p hp q hq op oq hop hoq hh => ?_⟩
+  · rw [key p hp]; exact h.1 p hp
+  · rw [key p hp] at hop; rw [key q hq] at hoq
+    exact h.2 p hp q hq op oq hop hoq hh
+
 theorem pres_appendO (w : World) (o : Obj) (k : Nat) (h : PhiO w o) :
     Pres w { w with objs := w.objs ++ [o], next := w.next + k } := by
-  refine Pres.lists rfl rfl (fun x hx => ?_) (fun c h => Or.inl ⟨c, h, rfl⟩) (fun r h => Or.inl ⟨r, h, rfl⟩) (Nat.le_add_right _ _)
+  refine Pres.lists rfl rfl (fun x hx => ?_) (fun c h => Or.inl ⟨c, h, rfl⟩) (fun r h => Or.inl ⟨r, h, rfl⟩) (HostInv.appendO w o k) (Nat.le_add_right _ _)
   simp only [List.mem_append, List.mem_singleton] at hx
   rcases hx with hx | rfl
   · exact Or.inl hx
@@ -1080,9 +1244,13 @@ theorem J_release (w : World) (label key0 : String) (j : J w) : J (release w lab
     · rename_i t hfind
       have hm : t ∈ w.tgts := List.mem_of_find?_eq_some hfind
       split
-      · split
-        · exact j.step (pres_probeNotify _ _ _)
-        · exact j.step (pres_setT_of_mem j hm rfl id)
+      · rename_i changed became hloop
+        split
+        · refine j.step (pres_probeNotify _ _ _ (fun hb t1 ht1 => ?_))
+          rw [j.fresh.2.2 t hm] at ht1
+          cases ht1
+          exact (j.tok t hm).2 changed (by rw [hloop, hb])
+        · exact j.step (pres_setT_of_mem j hm rfl id (fun hk => ⟨hk.1, fun c hc => by cases hc⟩))
       · exact j
     · exact j
   · split
@@ -1107,12 +1275,21 @@ theorem J_release (w : World) (label key0 : String) (j : J w) : J (release w lab
           · cases hm
         · exact j
 
+theorem installedObj_get {w : World} {svc : Bytes} {o : Obj} (h : installedObj w svc = some o) : getO w o.id = some o := by
+  unfold installedObj at h
+  cases hf : w.table.find? (fun p => p.1 = svc) with
+  | none => rw [hf] at h; cases h
+  | some p =>
+    rw [hf] at h
+    simp only [Option.bind_some] at h
+    rw [getO_id h]; exact h
+
 theorem J_withInstalled (w : World) (c : Nat) (svc : Bytes) (k : Obj → World) (j : J w)
-    (hk : ∀ o, o ∈ w.objs → J (k o)) : J (withInstalled w c svc k) := by
+    (hk : ∀ o, o ∈ w.objs → installedObj w svc = some o → J (k o)) : J (withInstalled w c svc k) := by
   unfold withInstalled
   split
   · exact j.step (pres_emit _ _)
-  · rename_i o ho; exact hk o (installedObj_mem ho)
+  · rename_i o ho; exact hk o (installedObj_mem ho) ho
 
 theorem J_applyOp (w : World) (op : Op) (j : J w) : J (applyOp w op) := by
   cases op with
@@ -1129,7 +1306,7 @@ theorem J_applyOp (w : World) (op : Op) (j : J w) : J (applyOp w op) := by
   | deploy c svc host rollout ts dt drt => simp only [applyOp]; exact J_settle _ _ (J_startDeploy _ _ _ _ _ _ _ _ j)
   | pause c svc drt fa =>
     simp only [applyOp]
-    refine J_settle _ _ (J_withInstalled _ _ _ _ j (fun o _ => ?_))
+    refine J_settle _ _ (J_withInstalled _ _ _ _ j (fun o _ _ => ?_))
     split
     · exact j
     · rename_i g _
@@ -1138,7 +1315,7 @@ theorem J_applyOp (w : World) (op : Op) (j : J w) : J (applyOp w op) := by
       exact j2.step (pres_park _ (Or.inr trivial))
   | stop c svc drt msg =>
     simp only [applyOp]
-    refine J_settle _ _ (J_withInstalled _ _ _ _ j (fun o _ => ?_))
+    refine J_settle _ _ (J_withInstalled _ _ _ _ j (fun o _ _ => ?_))
     split
     · exact j
     · rename_i g _
@@ -1147,30 +1324,30 @@ theorem J_applyOp (w : World) (op : Op) (j : J w) : J (applyOp w op) := by
       exact j2.step (pres_park _ (Or.inr trivial))
   | resume c svc =>
     simp only [applyOp]
-    refine J_settle _ _ (J_withInstalled _ _ _ _ j (fun o _ => ?_))
+    refine J_settle _ _ (J_withInstalled _ _ _ _ j (fun o _ _ => ?_))
     split
     · exact j
     · exact (j.step (pres_setG _ _)).step (pres_emit _ _)
   | remove c svc =>
     simp only [applyOp]
-    refine J_settle _ _ (J_withInstalled _ _ _ _ j (fun o _ => ?_))
+    refine J_settle _ _ (J_withInstalled _ _ _ _ j (fun o _ _ => ?_))
     have j1 := j.step (pres_foldl _ pres_disposeLb (o.active.toList ++ o.rollout.toList) w)
     have j2 : J { (List.foldl disposeLb w (o.active.toList ++ o.rollout.toList)) with
         table := (List.foldl disposeLb w (o.active.toList ++ o.rollout.toList)).table.filter (·.1 ≠ svc) } :=
-      j1.step (Pres.of_eq rfl rfl rfl rfl rfl)
+      j1.step (pres_tableFilter _ _)
     exact j2.step (pres_emit _ _)
   | rolloutSet c svc p allow =>
     simp only [applyOp]
-    refine J_settle _ _ (J_withInstalled _ _ _ _ j (fun o ho => ?_))
+    refine J_settle _ _ (J_withInstalled _ _ _ _ j (fun o ho ho' => ?_))
     split
     · exact j.step (pres_emit _ _)
     · have hO : PhiO w { o with split := some ⟨p, allow⟩ } := j.objs o ho
-      exact (j.step (pres_setO (Or.inr hO))).step (pres_emit _ _)
+      exact (j.step (pres_setO_upd (o := { o with split := some ⟨p, allow⟩ }) (installedObj_get ho') rfl rfl rfl hO)).step (pres_emit _ _)
   | rolloutStop c svc =>
     simp only [applyOp]
-    refine J_settle _ _ (J_withInstalled _ _ _ _ j (fun o ho => ?_))
+    refine J_settle _ _ (J_withInstalled _ _ _ _ j (fun o ho ho' => ?_))
     have hO : PhiO w { o with split := none } := j.objs o ho
-    exact (j.step (pres_setO (Or.inr hO))).step (pres_emit _ _)
+    exact (j.step (pres_setO_upd (o := { o with split := none }) (installedObj_get ho') rfl rfl rfl hO)).step (pres_emit _ _)
   | req r svc ck hc =>
     simp only [applyOp]
     exact J_settle _ _ (j.step (pres_appendR w { id := r, svc := svc, cookie := ck, hc := hc } trivial))
@@ -1180,6 +1357,7 @@ theorem J_applyOp (w : World) (op : Op) (j : J w) : J (applyOp w op) := by
 
 theorem J_init : J ({} : World) :=
   ⟨⟨fun _ h => (by cases h), fun _ h => (by cases h), fun _ h => (by cases h)⟩, fun _ h => (by cases h),
+   ⟨fun _ h => (by cases h), fun _ h => (by cases h)⟩, fun _ h => (by cases h),
    fun _ h => (by cases h), fun _ h => (by cases h), fun _ h => (by cases h)⟩
 
 /-- **The invariant holds after every schedule.** -/
